@@ -22,6 +22,12 @@ claim('C01', 'interprocedural must-check / fail-closed gate analysis on SSA (edg
       'failures stored in outcome.Error are sticky; integrity is enforce in every non-skip level literal and cannot be overridden. This is a necessary structural condition of the property for every envelope, '
       'descriptor, metadata map and level at once; it does not establish cryptographic validity (trusted: notation-core-go).', 'DESIGN.md 2/C01')
 
+claim('C02', 'typestate + must-check gate analysis on SSA, finite decision table of the predicate, who-may-read inventories, constant-table order',
+      'Static, all-paths: the critical-failure predicate is exactly Action==enforce && Error!=nil; every validation result appended to the outcome (and every later store to its Error) is gated by that predicate on all '
+      'paths to success; each result carries the action of its own type from the applicable level; overrides go into a fresh map behind the legality gates; every plugin situation (missing, too old, no capability, '
+      'execution error, missing/failed verdict) is fail-closed; native identity/revocation checks are routed by capability and skip; critical extended attributes are accounted for when no plugin is named and when the '
+      'plugin ran. The path "plugin named but not executed" is a known finding pinned by a stable test. Clause-wise structure implies the decision table and monotonicity; the table is not enumerated as values.', 'DESIGN.md 2/C02')
+
 NA_REASON = {}
 
 def main():
